@@ -42,8 +42,9 @@ def child_main(path):
     b, root = job['backend'], job['root']
     if job['job'] == 'build':
         a = archmon.public_open(b, root, False)
-        for k, v in job['items']:
-            a[dec(k)] = dec(v)
+        for rnd in range(int(job.get('history', 0)), -1, -1):
+            for k, v in job['items']:
+                a[dec(k)] = dec(v) if rnd == 0 else 'old%d' % rnd
         return
     if job['job'] == 'final':
         a = archmon.public_open(b, root, False) if b['kind'] != 'file' else \
@@ -125,6 +126,9 @@ def run_ops(klepto, archmon, a, b, root, ops):
                 c = klepto.archives.cache(archive=a)
                 c.load()
                 res = sorted([json.dumps(enc(k), sort_keys=True), enc(v)] for k, v in dict(c).items())
+            elif o == 'idle':
+                time.sleep(op[1] / 1000.0)
+                res = None
             elif o == 'open':
                 h = archmon.public_open(b, root, bool(op[1]))
                 h2 = h.archive if bool(op[1]) else h
@@ -467,9 +471,10 @@ def gen_case(rng, prop='C14', free=False):
         jobs.append({'ops': wops})
         rops = []
         m = n * 2 if not free else n
+        opener_cached = int(rng.random() < 0.4)     # all openers of one case use the same flavour
         for j in range(m):
             if wl == 'writer-opener':
-                rops.append(['open', int(rng.random() < 0.3)])
+                rops.append(['open', opener_cached])
             else:
                 rops.append(rng.choice([['get', 'k'], ['in', 'k'], ['len'], ['keys'], ['items'], ['load'], ['get', 'base']]))
         jobs.append({'ops': rops})
@@ -480,8 +485,19 @@ def gen_case(rng, prop='C14', free=False):
         nw = rng.choice([2, 3, 4])
         jobs = [{'ops': [], 'fork': [[['set', 'f%d_%d' % (w, j), val('f%d' % w)] for j in range(n)] for w in range(nw)]}]
     policy = rng.choice(['random', 'random', 'sticky', 'pct'])
+    history = rng.choice([0, 0, 1, 2])
+    if wl == 'writer-opener' and kind == 'file' and rng.random() < 0.35:
+        s0 = []          # an existing but still empty archive
+        for j in jobs[:1]:
+            j['ops'] = [op if op[1] != 'k' else ['set', 'k', op[2]] for op in j['ops']]
+    if free and kind == 'sql' and rng.random() < 0.12:
+        # a reader that looks a key up and then sits idle with its handle open must not block a writer
+        wl = 'idle-reader'
+        history = 2
+        jobs = [{'ops': [['idle', 400], ['set', 'other', val('o')], ['set', 'other2', val('o')]]},
+                {'ops': [['in', 'k'], ['idle', 6500]]}]
     return {'backend': b, 'workload': wl, 's0': s0, 'jobs': jobs, 'policy': policy, 'free': free,
-            'seed': rng.randrange(1 << 30)}
+            'history': history, 'seed': rng.randrange(1 << 30)}
 
 
 # =========================================================================================
@@ -499,6 +515,10 @@ def judge(case, outs, final):
         viol.append({'property': 'C14', 'kind': kind, 'mech': list(mech), 'case': case,
                      'msg': ('%s %s: ' % (backend_name(b), wl) + msg)[:700]})
     S0 = dict((json.dumps(k), v) for k, v in case['s0'])
+    # the recorded opener finding is the cached=False constructor (it rewrites the file); a case whose
+    # openers all use cached=True must hold
+    opener_flavours = set(op[1] for j in case['jobs'] for op in j['ops'] if op[0] == 'open')
+    rewriting_opener = (b['kind'] == 'file' and wl == 'writer-opener' and opener_flavours == set([0]))
     writes = {}          # key -> list of (call, ret, value, proc)
     for pi, rec in enumerate(outs):
         for r in rec or []:
@@ -542,6 +562,10 @@ def judge(case, outs, final):
             continue
         for r in rec:
             o = r['op']
+            if 'exc' in r and 'database is locked' in r['exc'] and wl == 'idle-reader':
+                bad('writer-blocked-by-idle-reader', 'client %d %s raised %s while the only other process had finished its '
+                    'lookup and was idle' % (pi, o, r['exc']))
+                continue
             if 'exc' in r and 'database is locked' in r['exc']:
                 # sqlite's busy timeout is wall-clock (5 s): under a controller that withholds the lock
                 # holder, or on a loaded machine, this is inconclusive - never a verdict
@@ -551,7 +575,7 @@ def judge(case, outs, final):
                 continue
             if 'exc' in r and not (r['exc'] == 'KeyError' and o == 'get'):
                 mech = []
-                if o != 'set' and b['kind'] == 'file' and wl == 'writer-opener' and r['exc'] == 'KeyError':
+                if o != 'set' and rewriting_opener and r['exc'] == 'KeyError':
                     # items()/load() list the keys and then look each one up in a second read of the file; a
                     # key can only vanish in between because an opener's rewrite restored an older dictionary
                     mech = ['file-open-rewrites-archive']
@@ -601,7 +625,7 @@ def judge(case, outs, final):
                     hi = max([i for i, st in enumerate(file_states) if st[0] <= r['ret']] or [0])
                     if not any(got == file_states[i][2] for i in range(lo, hi + 1)):
                         mech = []
-                        if wl == 'writer-opener' and all(k0 in got for k0 in S0) and \
+                        if rewriting_opener and all(k0 in got for k0 in S0) and \
                                 all(k1 in allowed_vals and json.dumps(v1) in allowed_vals[k1] for k1, v1 in got.items()):
                             # complete entries only, every initial key there, but older than admissible: an
                             # opener's read-modify-write put an older dictionary back (later writes went on top)
@@ -627,7 +651,7 @@ def judge(case, outs, final):
             continue
         if k not in fin:
             mech = []
-            if b['kind'] == 'file' and wl == 'writer-opener':
+            if rewriting_opener:
                 mech = ['file-open-rewrites-archive']
             bad('completed-write-lost', 'key %s written by a completed operation is missing at the end' % k, mech)
             continue
@@ -636,14 +660,14 @@ def judge(case, outs, final):
             lastv = max(done, key=lambda w: w[1])[2]
             if fin[k] != lastv:
                 mech = []
-                if b['kind'] == 'file' and wl == 'writer-opener':
+                if rewriting_opener:
                     mech = ['file-open-rewrites-archive']
                 bad('completed-write-lost', 'key %s ends as %s, the last completed write stored %s'
                     % (k, json.dumps(fin[k])[:40], json.dumps(lastv)[:40]), mech)
     for k in S0:
         if k not in fin:
             bad('completed-write-lost', 'initial key %s is missing at the end' % k,
-                ['file-open-rewrites-archive'] if (b['kind'] == 'file' and wl == 'writer-opener') else [])
+                ['file-open-rewrites-archive'] if rewriting_opener else [])
     return viol
 
 
@@ -656,7 +680,8 @@ def run_case(case, prop='C14'):
         b = case['backend']
         jp = os.path.join(sc, 'build.json')
         with open(jp, 'w') as f:
-            json.dump({'job': 'build', 'backend': b, 'root': root, 'items': case['s0']}, f)
+            json.dump({'job': 'build', 'backend': b, 'root': root, 'items': case['s0'],
+                       'history': case.get('history', 0)}, f)
         subprocess.run([PY, '-m', 'kv.concmon', jp], env=child_env(), cwd=sc, timeout=60,
                        stdout=subprocess.PIPE, stderr=subprocess.STDOUT)
         jobs = [dict(j, job='client', backend=b, root=root) for j in case['jobs']]
